@@ -1,5 +1,6 @@
 """C02 - files written by the library read back identically (plain, gzip, handle)."""
 import gzip
+import json
 import io
 import os
 import tempfile
@@ -736,6 +737,7 @@ def run(ctx):
         route_cases(ctx, out, reqs, tmp)
         union_value_cases(ctx, out, tmp)
         hash_column_cases(ctx, out, tmp)
+        reuse_cases(ctx, out, tmp)
     mo = ctx.driver.run([r for r, _ in reqs])
     for (r, text), m in zip(reqs, mo):
         if has_unmodelled(m):
@@ -865,6 +867,90 @@ def hash_column_cases(ctx, out, tmp):
             out.nontrivial.add(repr(e["where"]))
 
 
+def eval_reuse(case, tmp):
+    """ONE record object re-used as a template: written, changed in place (column.value of some columns set to the values of
+    another accepted line), written again, ...  What is supplied at each write is the record as it is at that moment; the
+    expected text of each is rendered from FRESH column objects holding the values the record had (never from the
+    record's own str(), which is part of what is being checked)."""
+    from maflib.header import MafHeader
+    from maflib.record import MafRecord
+    from maflib.validation import ValidationStringency as VS
+    from maflib.writer import MafWriter
+    ann = case["scheme"]
+    sch = impl.scheme_by_annotation(ann) if ann else None
+    names = case.get("names")
+    mode = VS.Strict if ann else VS.Silent
+    src = [MafRecord.from_line(l, scheme=sch, column_names=names, validation_stringency=VS.Silent) for l in case["lines"]]
+    rec = MafRecord.from_line(case["lines"][0], scheme=sch, column_names=names, validation_stringency=VS.Silent)
+    h = MafHeader.from_lines(case["header"], validation_stringency=VS.Silent)
+    channel = case["channel"]
+    path = os.path.join(tmp, "reuse.maf" + (".gz" if channel == "gz" else ""))
+    keep = {}
+    if channel in ("handle", "ctor"):
+        buf = io.StringIO()
+        buf.close = lambda: keep.setdefault("text", buf.getvalue())
+        w = MafWriter.from_fd(buf, h, validation_stringency=mode) if channel == "handle" else MafWriter(buf, h, validation_stringency=mode)
+    else:
+        w = MafWriter.from_path(path, h, validation_stringency=mode)
+    expected = []
+    failures = []
+    where = {"family": "reused-record", "scheme": ann, "channel": channel}
+    for k, step in enumerate(case["steps"]):
+        for cname, j in step:
+            rec[cname].value = src[j][cname].value
+        if case.get("peek") and k in case["peek"]:
+            str(rec)                      # the caller logs / inspects the record between edits
+        fresh = [type(c)(c.key, c.value, c.column_index) for c in rec.values()]
+        # a value that is not the parse of its own text (the single-null-element list, C04's listed finding) has no typed round trip: text only
+        expected.append(("\t".join(str(c) for c in fresh), [None if not_canonical(c) else enc_val(c.value) for c in fresh]))
+        try:
+            w += rec
+        except Exception as e:  # noqa
+            w.close()
+            return {"status": "writer refused write %d: %s" % (k, exc_name(e)), "failures": [], "expected": expected, "text": None}
+    w.close()
+    if channel in ("handle", "ctor"):
+        text = keep["text"]
+        hdr, cols, got, rd = read_back(channel, text, None, mode)
+    else:
+        hdr, cols, got, rd = read_back(channel, None, path, mode)
+        text = None
+    if len(got) != len(expected):
+        failures.append(dict(where, what="%d writes of a re-used record, %d records read back" % (len(expected), len(got)), kind="reuse", case=case))
+    for k, (g, (etext, evals)) in enumerate(zip(got, expected)):
+        if str(g) != etext:
+            diff = [(n, a, b) for n, a, b in zip(g.keys(), etext.split("\t"), str(g).split("\t")) if a != b][:4]
+            failures.append(dict(where, what="write %d of a re-used record (changed in place between writes) reads back with different text: (column, supplied, read) %s" % (k, diff),
+                                 kind="reuse", case=case))
+            break
+        if ann and any(ev is not None and enc_val(v) != ev for v, ev in zip(g.column_values(), evals)):
+            failures.append(dict(where, what="write %d of a re-used record reads back with different typed values" % k, kind="reuse", case=case))
+            break
+    return {"status": "ok", "failures": failures, "expected": expected, "text": text, "read": len(got)}
+
+
+def reuse_cases(ctx, out, tmp):
+    rng = ctx.rng("c02-reuse")
+    for _ in range(ctx.scale(24, 300)):
+        ann = rng.choice([None, "gdc-1.0.0", "gdc-1.0.0", "gdc-1.0.0-public", "gdc-1.0.0-genie"])
+        names = None if ann else ["Hugo_Symbol", "Chromosome", "Start_Position", "End_Position", "c5", "c6"]
+        lines = gen_records(rng, ann, rng.randrange(2, 5))
+        cols = impl.scheme_by_annotation(ann).column_names() if ann else names
+        steps = [[]]
+        for _k in range(rng.randrange(1, 4)):
+            steps.append([[rng.choice(cols), rng.randrange(len(lines))] for _j in range(rng.randrange(1, 4))])
+        case = {"scheme": ann, "names": names, "header": gen_header(rng, ann), "lines": lines, "channel": rng.choice(impl.WRITER_CHANNELS),
+                "steps": steps, "peek": sorted(rng.sample(range(len(steps)), rng.randrange(0, len(steps))))}
+        if ann and any(l.startswith("#sort.order") for l in case["header"]):
+            case["header"] = [l for l in case["header"] if not l.startswith("#sort.order")]
+        out.evaluations += 1
+        e = eval_reuse(case, tmp)
+        out.failures += e["failures"]
+        out.distribution["family:reused-record (%s)" % ("round trip" if e["text"] is not None or e.get("read") is not None else "refused")] += 1
+        if e.get("read"):
+            out.nontrivial.add(("reuse", json.dumps(case, sort_keys=True, default=str)[:400]))
+
+
 def search(ctx):
     return run(ctx)
 
@@ -880,6 +966,14 @@ def replay_case(ctx, failure):
     """Re-evaluate the stored case (header, generated lines, channel, header derivation, API edits) on the current
     implementation; the failures it produces now ([] = it round-trips; None = inputs not stored: regenerate)."""
     case = failure.get("case")
+    if failure.get("kind") == "reuse" and isinstance(case, dict) and all(k in case for k in ("scheme", "header", "lines", "channel", "steps")):
+        with tempfile.TemporaryDirectory() as tmp:
+            e = eval_reuse(case, tmp)
+        print("replay C02: one %s record object written %d times on channel '%s', column values changed in place between writes: %s"
+              % (case["scheme"] or "scheme-less", len(case["steps"]), case["channel"], _short(case["steps"], 300)))
+        print("  implementation: %s; %s record(s) read back" % (e["status"], e.get("read")))
+        print("  oracle: %d failure(s)%s" % (len(e["failures"]), "".join("\n    - " + x["what"] for x in e["failures"])))
+        return e["failures"]
     if not isinstance(case, dict) or any(k not in case for k in ("scheme", "header", "lines", "channel", "derived", "edits")):
         return None
     ann = case["scheme"]
